@@ -4,7 +4,7 @@
 //!                panic(message).  mode "exact" (Rat always; floats on data where every operation of the Thomas
 //!                algorithm is exact): x as integers xs over a common denominator L.  mode "outcome": only whether
 //!                the call refused.  mode "units": backward-error units against double-double references.
-use super::banded::{backward_units, common_den, scal, tool_error, vec_of, BE, LIM};
+use super::banded::{backward_units, common_den, jscale, scal, scale2, tool_error, vec_of, BE, LIM};
 use crate::dd::CDD;
 use crate::rat::Rat;
 use crate::util::*;
@@ -264,12 +264,19 @@ fn run_sol<T: BE>(case: &Value, out: &mut Out) {
         }
         emit(out, &mut k, e);
     } else {
-        let dense: Vec<Vec<(f64, f64)>> = dense_case(&case["tri"]);
-        let rc: Vec<(f64, f64)> = r.vec.iter().map(|x| x.to_c()).collect();
-        let su = match &sol { Ok(x) => backward_units(&dense, &x.vec.iter().map(|v| v.to_c()).collect::<Vec<_>>(), &rc), Err(_) => SAT };
-        emit(out, &mut k, json!({"op": "solve_units", "n": n, "cxf": T::CX, "panic": panic, "units": su}));
-        let du = det_units_of(&dense, det.as_ref().ok().map(|d| d.to_c()));
-        emit(out, &mut k, json!({"op": "det_units", "n": n, "cxf": T::CX, "panic": det.is_err(), "units": du}));
+        // extreme magnitudes: the case says T = T0 * 2^ea, r = r0 * 2^eb; the error measures are invariant under such uniform
+        // scalings and are evaluated on the descaled data (exact power-of-two rescalings, nothing overflows in the measurement)
+        let ea = case.get("ea").and_then(|v| v.as_i64()).unwrap_or(0); let eb = case.get("eb").and_then(|v| v.as_i64()).unwrap_or(0);
+        let sc = |p: (f64, f64), k: i64| (scale2(p.0, k), scale2(p.1, k));
+        let dense: Vec<Vec<(f64, f64)>> = dense_case(&case["tri"]).iter().map(|row| row.iter().map(|p| sc(*p, -ea)).collect()).collect();
+        let rc: Vec<(f64, f64)> = r.vec.iter().map(|x| sc(x.to_c(), -eb)).collect();
+        let su = match &sol { Ok(x) => backward_units(&dense, &x.vec.iter().map(|v| sc(v.to_c(), ea - eb)).collect::<Vec<_>>(), &rc), Err(_) => SAT };
+        emit(out, &mut k, json!({"op": "solve_units", "n": n, "cxf": T::CX, "panic": panic, "units": su, "msg": msg}));
+        // determinant: only while 2^(n ea) keeps it inside the f64 range; row / column graded cases are judged on solve only
+        if ea.abs() * n as i64 <= 900 && case.get("graded").is_none() {
+            let du = det_units_of(&dense, det.as_ref().ok().map(|d| sc(d.to_c(), -ea * n as i64)));
+            emit(out, &mut k, json!({"op": "det_units", "n": n, "cxf": T::CX, "panic": det.is_err(), "units": du}));
+        }
     }
     // product, conversion, accessors on the same matrix (integer data only)
     let ints = ["sub", "main", "sup", "subi", "maini", "supi"].iter().all(|f| case["tri"].get(*f).map(|v| v.as_array().unwrap().iter().all(|x| x.is_i64())).unwrap_or(true));
@@ -429,6 +436,32 @@ pub fn gen(tier: &str, seed: u64, out: &mut Out) {
                 push(out, c);
             }
         }
+        // (d') the same diagonally dominant float systems at extreme magnitudes: uniformly scaled by 2^+-60, 2^+-200, 2^+-400
+        //      (solution O(1) or as extreme as the matrix), and row- / column-graded by such factors (both keep the dominance)
+        for (q, ea) in [-400i64, -200, -60, 60, 200, 400].iter().enumerate() { for cx in [false, true] {
+            if quick && (q + n + cx as usize) % 2 == 1 && ea.abs() == 60 { continue; }
+            let g = |rng: &mut StdRng, k: usize| -> Vec<Value> { (0..k).map(|_| fl(rng)).collect() };
+            let mut t = json!({"n": n, "sub": g(&mut rng, n - 1), "sup": g(&mut rng, n - 1),
+                "main": (0..n).map(|_| json!({"m": (if rng.gen_bool(0.5) { 1 } else { -1 }) * rng.gen_range((1i64 << 19)..=(1i64 << 20)), "e": -10})).collect::<Vec<Value>>()});
+            let mut r = g(&mut rng, n); let mut ri = g(&mut rng, n);
+            if cx { t["subi"] = Value::from(g(&mut rng, n - 1)); t["supi"] = Value::from(g(&mut rng, n - 1)); t["maini"] = Value::from(g(&mut rng, n)); }
+            // (Complex: r * pivot must stay representable for the naive complex quotient, so "as extreme" stops at 2^+-200)
+            let eb = if (q + n) % 2 == 0 || (cx && ea.abs() > 200) { *ea } else { 2 * *ea };
+            let graded = ea.abs() == 60;
+            let (rowe, cole): (Vec<i64>, Vec<i64>) = if !graded { (vec![0; n], vec![0; n]) } else {
+                let v: Vec<i64> = (0..n).map(|_| [0i64, -60, -200, 200, 60][rng.gen_range(0..5)]).collect(); if *ea > 0 { (v, vec![0; n]) } else { (vec![0; n], v) } };
+            let (ea, eb) = if graded { (*ea, *ea) } else { (*ea, eb) };
+            let keys: Vec<&str> = if cx { vec!["", "i"] } else { vec![""] };
+            for sfx in keys {
+                for (name, di, dj) in [("sub", 1usize, 0usize), ("main", 0, 0), ("sup", 0, 1)] { let key = format!("{}{}", name, sfx);
+                    let v: Vec<Value> = t[key.as_str()].as_array().unwrap().iter().enumerate().map(|(k, x)| jscale(x, ea + rowe[k + di] + cole[k + dj])).collect(); t[key.as_str()] = Value::from(v); }
+            }
+            for k in 0..n { r[k] = jscale(&r[k], eb + rowe[k]); ri[k] = jscale(&ri[k], eb + rowe[k]); }
+            let mut c = json!({"kind": "sol", "ty": if cx { "cx" } else { "f64" }, "mode": "units", "fam": "scaled-dominant", "ea": ea, "eb": eb, "tri": t, "r": r});
+            if cx { c["ri"] = Value::from(ri); }
+            if graded { c["graded"] = json!(if ea > 0 { "rows" } else { "cols" }); }
+            push(out, c);
+        } }
         // (e) sequences on one object: det / solve / product / reads before and after EVERY mutating operation
         for ty in TYS { for _rep in 0..(if quick { 1 } else { 4 }) {
             let mut mag = 3i64; let mut best = seq_case(&mut rng, n, ty, mag);
